@@ -10,6 +10,7 @@ import (
 	"fmt"
 	"os"
 	"path/filepath"
+	"strings"
 	"sync"
 	"time"
 
@@ -62,17 +63,34 @@ func once(it int, out *Out) error {
 			return fmt.Errorf("setup %s: %v %v", ev, ok, err)
 		}
 	}
-	tips := [][]string{{"x.ca", "x.pa", "x.sa", "x.e", "r.1.E", "x.pa", "x.e"}, {"x.pa", "x.e", "r.2.P", "x.ca", "x.e", "x.e"}, {"x.e", "x.e", "x.e", "x.pa", "r.1.R", "x.e"}}[it%3]
+	// blocks, reorganisations and relayed (unconfirmed) transactions: the relay path filters a
+	// transaction outside any wallet-database write transaction
+	tips := [][]string{{"y.in", "x.ca", "x.pa", "y.sp", "x.sa", "x.e", "r.1.E", "x.pa", "y.in", "x.e"}, {"x.pa", "y.in", "x.e", "r.2.P", "x.ca", "y.sp", "x.e", "x.e"}, {"y.in", "y.sp", "x.e", "x.e", "x.e", "x.pa", "r.1.R", "x.e", "y.in"}}[it%3]
 	for _, ev := range tips {
+		if strings.HasPrefix(ev, "y.") {
+			// queue a relayed transaction behind the tips announced so far (Apply would deliver it at once)
+			if tx, ok := w.RelayContent(ev[2:], w.Ledger()); ok {
+				w.Relayed = append(w.Relayed, tx)
+				w.RelayedKind = append(w.RelayedKind, ev[2:])
+				w.N.Relay(tx)
+			}
+			continue
+		}
 		if ok, err := w.Apply(ev); err != nil {
 			return fmt.Errorf("tip %s: %v %v", ev, ok, err)
 		}
 	}
-	var blocks []*wire.MsgBlock
+	type item struct {
+		b  *wire.MsgBlock
+		tx *wire.MsgTx
+	}
+	var blocks []item
 	for len(w.N.Queue) > 0 {
 		nt, _ := w.N.Pop()
 		if nt.Block != nil {
-			blocks = append(blocks, nt.Block)
+			blocks = append(blocks, item{b: nt.Block})
+		} else if nt.Tx != nil {
+			blocks = append(blocks, item{tx: nt.Tx})
 		}
 	}
 	W := w.I.W
@@ -89,7 +107,11 @@ func once(it int, out *Out) error {
 	go func() { // node
 		defer wg.Done()
 		for _, b := range blocks {
-			W.VerifOnBlockConnected(b)
+			if b.tx != nil {
+				W.VerifOnTransactionReceived(b.tx)
+				continue
+			}
+			W.VerifOnBlockConnected(b.b)
 			time.Sleep(time.Duration(it%4) * 200 * time.Microsecond)
 		}
 	}()
